@@ -59,8 +59,11 @@ func (b *CslgBox) Type() string {
 
 // Size - calculated size of box
 func (b *CslgBox) Size() uint64 {
-	// full Box + 5 * 4 + version * 5*4
-	return uint64(boxHeaderSize + 4 + 20 + 20*b.Version)
+	// full Box + 5 * 4 (version 0) or 5 * 8 (every other version, as in decode and encode)
+	if b.Version == 0 {
+		return uint64(boxHeaderSize + 4 + 20)
+	}
+	return uint64(boxHeaderSize + 4 + 40)
 }
 
 // Encode - write box to w
